@@ -1,9 +1,193 @@
-//! stub
-use super::Ctx;
-use crate::engine::evidence::{Case, Report, Verdict};
-pub fn run(_ctx: &Ctx, _rep: &mut Report) {
-    crate::engine::monitor::machinery_fail("not implemented");
+//! C18 - deck and published combination tables are complete and duplicate-free.
+//!
+//! Spaces: every entry of POKER_DECK, Two::{AA, AK, AKs, AKo, AQs, AQo}, Four::OMAHA_PERMUTATIONS,
+//! Six/Seven::FIVE_CARD_PERMUTATIONS against oracle-generated combination sets; `Deck::get(i)` for every
+//! i in 0..2^24 (thorough: 0..2^32) and every 2^k - 1, 2^k, 2^k + 1 up to usize::MAX.
+use super::{confirm, sample_json, Ctx};
+use crate::engine::enumerate::{combos, par_parts};
+use crate::engine::evidence::{Acc, Case, Report, Verdict};
+use crate::engine::monitor::{self, guard};
+use crate::oracle::cards::{deck, show_word, show_words, Card};
+use ckc_rs::cards::four::Four;
+use ckc_rs::cards::seven::Seven;
+use ckc_rs::cards::six::Six;
+use ckc_rs::cards::two::Two;
+use ckc_rs::deck::{Deck, POKER_DECK};
+use std::time::Instant;
+
+pub const TABLES: [&str; 10] = ["POKER_DECK", "Two::AA", "Two::AK", "Two::AKs", "Two::AKo", "Two::AQs", "Two::AQo", "Four::OMAHA_PERMUTATIONS", "Six::FIVE_CARD_PERMUTATIONS", "Seven::FIVE_CARD_PERMUTATIONS"];
+
+/// every (ra, rb) two-card combination, higher card first; suited: Some(true/false) filters
+fn two_combos(ra: u8, rb: u8, suited: Option<bool>) -> Vec<[u32; 2]> {
+    let mut v = Vec::new();
+    for sa in (0..4).rev() {
+        for sb in (0..4).rev() {
+            if ra == rb && sa <= sb {
+                continue;
+            }
+            if let Some(su) = suited {
+                if (sa == sb) != su {
+                    continue;
+                }
+            }
+            v.push([Card::new(ra, sa).word(), Card::new(rb, sb).word()]);
+        }
+    }
+    v
 }
-pub fn judge(_case: &Case) -> Verdict {
-    Verdict::NotJudged("not implemented".into())
+
+fn check_two_table(name: &str, t: &[Two], expect: Vec<[u32; 2]>) -> Result<(), (String, String, String)> {
+    let got: Vec<[u32; 2]> = t.iter().map(|x| x.to_arr()).collect();
+    if got.len() != expect.len() {
+        return Err(("wrong-length".into(), format!("{} holds {} hands", name, expect.len()), format!("{}", got.len())));
+    }
+    for (i, g) in got.iter().enumerate() {
+        if g[0] <= g[1] {
+            return Err(("higher-card-not-first".into(), format!("{}[{}] lists the higher card first", name, i), show_words(g)));
+        }
+        if got[..i].contains(g) {
+            return Err(("duplicate-entry".into(), format!("{}[{}] occurs once", name, i), show_words(g)));
+        }
+        if !expect.contains(g) {
+            return Err(("entry-not-of-the-described-kind".into(), format!("{}[{}] is one of the {} described combinations", name, i, expect.len()), show_words(g)));
+        }
+    }
+    for e in &expect {
+        if !got.contains(e) {
+            return Err(("missing-combination".into(), format!("{} contains {}", name, show_words(e)), "absent".into()));
+        }
+    }
+    Ok(())
+}
+
+fn check_index_table(name: &str, rows: Vec<Vec<u8>>, n: usize, k: usize) -> Result<(), (String, String, String)> {
+    let expect: Vec<Vec<u8>> = combos(n, k).into_iter().map(|c| c.into_iter().map(|x| x as u8).collect()).collect();
+    if rows.len() != expect.len() {
+        return Err(("wrong-length".into(), format!("{} has C({},{}) = {} rows", name, n, k, expect.len()), format!("{}", rows.len())));
+    }
+    for (i, r) in rows.iter().enumerate() {
+        if r.len() != k || !r.windows(2).all(|w| w[0] < w[1]) || r.iter().any(|x| *x as usize >= n) {
+            return Err(("row-not-strictly-increasing-in-range".into(), format!("{}[{}] is a strictly increasing selection of {} slots below {}", name, i, k, n), format!("{:?}", r)));
+        }
+        if rows[..i].contains(r) {
+            return Err(("duplicate-row".into(), format!("{}[{}] occurs once", name, i), format!("{:?}", r)));
+        }
+        if *r != expect[i] {
+            return Err(("row-out-of-order-or-missing".into(), format!("{}[{}] = {:?} (increasing lexicographic order)", name, i, expect[i]), format!("{:?}", r)));
+        }
+    }
+    Ok(())
+}
+
+/// Case kinds: "table" [table number]; "deck.get" [index].
+pub fn judge(case: &Case) -> Verdict {
+    let x = case.words.first().copied().unwrap_or(u64::MAX);
+    match case.kind.as_str() {
+        "deck.get" => {
+            let i = x as usize;
+            let exp = if i < 52 { deck()[i].word() } else { 0 };
+            match guard(|| (Deck::get(i), Deck::len())) {
+                Err(p) => Verdict::Violated { class: "panic:deck.get".into(), expected: show_word(exp), observed: format!("panic: {}", p) },
+                Ok((_, l)) if l != 52 => Verdict::Violated { class: "deck.len".into(), expected: "52".into(), observed: format!("{}", l) },
+                Ok((w, _)) if w != exp => Verdict::Violated { class: format!("deck.get:{}", if i < 52 { "wrong-card-in-range" } else { "not-blank-past-the-end" }), expected: format!("Deck::get({}) = {}", i, show_word(exp)), observed: show_word(w) },
+                Ok(_) => Verdict::Holds,
+            }
+        }
+        "table" => {
+            if x as usize >= TABLES.len() {
+                return Verdict::NotJudged("no such table".into());
+            }
+            let name = TABLES[x as usize];
+            let r = guard(|| match x {
+                0 => {
+                    let arr = POKER_DECK.arr();
+                    let d = deck();
+                    for i in 0..52 {
+                        if arr[i] != d[i].word() {
+                            return Err(("wrong-card-at-position".to_string(), format!("POKER_DECK[{}] = {}", i, d[i].name()), show_word(arr[i])));
+                        }
+                    }
+                    Ok(())
+                }
+                1 => check_two_table(name, &Two::AA, two_combos(12, 12, None)),
+                2 => check_two_table(name, &Two::AK, two_combos(12, 11, None)),
+                3 => check_two_table(name, &Two::AKs, two_combos(12, 11, Some(true))),
+                4 => check_two_table(name, &Two::AKo, two_combos(12, 11, Some(false))),
+                5 => check_two_table(name, &Two::AQs, two_combos(12, 10, Some(true))),
+                6 => check_two_table(name, &Two::AQo, two_combos(12, 10, Some(false))),
+                7 => check_index_table(name, Four::OMAHA_PERMUTATIONS.iter().map(|r| r.to_vec()).collect(), 4, 2),
+                8 => check_index_table(name, Six::FIVE_CARD_PERMUTATIONS.iter().map(|r| r.to_vec()).collect(), 6, 5),
+                _ => check_index_table(name, Seven::FIVE_CARD_PERMUTATIONS.iter().map(|r| r.to_vec()).collect(), 7, 5),
+            });
+            match r {
+                Err(p) => Verdict::Violated { class: format!("panic:table:{}", name), expected: "a table".into(), observed: format!("panic: {}", p) },
+                Ok(Ok(())) => Verdict::Holds,
+                Ok(Err((class, expected, observed))) => Verdict::Violated { class: format!("{}:{}", name, class), expected, observed },
+            }
+        }
+        _ => Verdict::NotJudged("unknown kind".into()),
+    }
+}
+
+pub fn run(ctx: &Ctx, rep: &mut Report) {
+    let t0 = Instant::now();
+    let mut acc = Acc::new(1);
+    let sizes = [52u64, 6, 16, 4, 12, 4, 12, 6, 6, 21];
+    for t in 0..TABLES.len() as u64 {
+        acc.cases += sizes[t as usize];
+        acc.calls += 1;
+        acc.nontrivial += sizes[t as usize];
+        if let Some(v) = confirm(judge, Case::new("table", &[t])) {
+            acc.violate(v);
+        }
+    }
+    rep.add_space("every entry of the deck and of the nine published tables", &acc, t0, "as sets against generated combinations: complete, duplicate-free, higher card first / rows increasing and in order");
+    rep.sample(sample_json("table", "Two::AKs", &format!("{:?}", Two::AKs.iter().map(|t| show_words(&t.to_arr())).collect::<Vec<_>>())));
+    rep.sample(sample_json("table", "Six::FIVE_CARD_PERMUTATIONS", &format!("{:?}", Six::FIVE_CARD_PERMUTATIONS)));
+    // Deck::get
+    let t0 = Instant::now();
+    let kind = monitor::kind_id("deck.get");
+    let d = deck();
+    let top: u64 = if ctx.tier.thorough() { 1 << 32 } else { 1 << 24 };
+    let accs = par_parts(256, |p| {
+        let mut acc = Acc::new(1);
+        let lo = top / 256 * p as u64;
+        monitor::beat(kind, &[lo]);
+        for i in lo..lo + top / 256 {
+            acc.cases += 1;
+            acc.calls += 1;
+            let exp = if i < 52 { d[i as usize].word() } else { 0 };
+            if i < 64 {
+                acc.nontrivial += 1;
+            }
+            if !matches!(guard(|| Deck::get(i as usize)), Ok(w) if w == exp) {
+                match confirm(judge, Case::new("deck.get", &[i])) {
+                    Some(v) => acc.violate(v),
+                    None => monitor::machinery_fail("C18 deck.get mismatch not reproduced"),
+                }
+            }
+        }
+        acc
+    });
+    let mut acc = Acc::merged(accs);
+    for k in 0..64u32 {
+        for i in [(1u64 << k).wrapping_sub(1), 1u64 << k, (1u64 << k).wrapping_add(1)] {
+            acc.cases += 1;
+            acc.calls += 1;
+            acc.nontrivial += 1;
+            if let Some(v) = confirm(judge, Case::new("deck.get", &[i])) {
+                acc.violate(v);
+            }
+        }
+    }
+    for i in [u64::MAX, u64::MAX - 1, 51, 52, 53] {
+        acc.cases += 1;
+        acc.calls += 1;
+        if let Some(v) = confirm(judge, Case::new("deck.get", &[i])) {
+            acc.violate(v);
+        }
+    }
+    rep.add_space(&format!("Deck::get(i) for every i < 2^{} and every 2^k - 1, 2^k, 2^k + 1 up to usize::MAX", if ctx.tier.thorough() { 32 } else { 24 }), &acc, t0, "in range => the deck card, at or past the end => blank");
+    rep.rule = "distinct table entries and distinct indices; non-trivial = every table entry, and the indices around the deck's end and the powers of two".into();
+    rep.bound = "tables complete; Deck::get on a complete low range plus all power-of-two neighbourhoods".into();
 }
